@@ -388,6 +388,10 @@ class ScipyOptimizeDriver(Driver):
                             # scipy expects an absent bound to be infinite
                             lb_j = lb[j] if lb[j] > -INF_BOUND else -np.inf
                             ub_j = ub[j] if ub[j] < INF_BOUND else np.inf
+                            if lb_j == -np.inf and ub_j == np.inf:
+                                # An element of an array constraint without any bound constrains
+                                # nothing (and shgo cannot convert such a constraint).
+                                continue
                             con = NonlinearConstraint(
                                 fun=signature_extender(
                                     WeakMethodWrapper(self, '_con_val_func'), args),
